@@ -5,7 +5,7 @@ import math
 from fractions import Fraction
 
 from .. import gen
-from ..common import cnat, clist, coq_eval
+from ..common import cnat, clist, safe_coq_eval
 from ..impl import Impl
 
 GEN_FILES = ['TrianglesPrange.v']
@@ -226,13 +226,18 @@ def run(ctx, scratch):
                      '[%s], [%s], core_heap_inv %s)' % (g, g, g, g, clist(c['order'], cnat),
                                       '; '.join('count_cliques %s %d %s' % (g, k, al) for k in c['mks']),
                                       '; '.join('count_cliques_L1 %s %d %s' % (g, k, al) for k in c['mks']), g))
-    vals = coq_eval('c11u', IMPORTS, exprs, prelude=PRELUDE, shard=150 if quick else 100, timeout=1500)
-    for c, v in zip(cases, vals):
+    vals = safe_coq_eval(ctx, 'c11u', IMPORTS, exprs, prelude=PRELUDE, shard=150 if quick else 100, timeout=1500)
+    for c in cases:
+        c['model'] = None     # stays None when the model no longer evaluates (recorded in ctx.proof_broken): model diffs are
+        #                       skipped, the brute-force / peeling / definition oracles still judge every output
+    for c, v in zip(cases, vals or []):
         c['model'] = dict(tri=v[0], core=opt(v[1]), coef=None if v[2] is None else Fraction(v[2][1][0], v[2][1][1]), peel=opt(v[3]),
                           cliques=[res_nat(x) for x in v[4]], cliques_l1=[res_nat(x) for x in v[5]], heap_inv=v[6])
-    dvals = coq_eval('c11d', IMPORTS, ['(count_triangles %s, count_triangles %s)' % (glit(c['n'], c['E']), glit(c['n'], c['S']))
-                                       for c in tri_dir], shard=200)
-    for c, v in zip(tri_dir, dvals):
+    dvals = safe_coq_eval(ctx, 'c11d', IMPORTS, ['(count_triangles %s, count_triangles %s)' % (glit(c['n'], c['E']), glit(c['n'], c['S']))
+                                                  for c in tri_dir], shard=200)
+    for c in tri_dir:
+        c['model'] = None
+    for c, v in zip(tri_dir, dvals or []):
         c['model'] = v
 
     # ---- diff and oracles
@@ -250,17 +255,17 @@ def run(ctx, scratch):
         r = r['ok']
         # model-internal agreement (L0 vs L1 of the model, model vs python oracle): a failure here is a harness/model
         # error and is reported as broken correspondence, never silently dropped
-        if m['heap_inv'] is not True:
+        if m is not None and m['heap_inv'] is not True:
             ctx.violation('model', 'heap invariant (heap_ok_b) fails before some pop_min of the L0 model', case=case,
                           family=fam, kind='model')
-        if m['peel'] is None or [int(x) for x in m['peel']] != c['core'] or m['cliques'] != m['cliques_l1']:
+        if m is not None and (m['peel'] is None or [int(x) for x in m['peel']] != c['core'] or m['cliques'] != m['cliques_l1']):
             ctx.violation('model', 'L1 and L0 models (or the python peeling) disagree', case=case,
                           expected=dict(core=c['core']), observed=dict(peel=m['peel'], l0=m['cliques'], l1=m['cliques_l1']),
                           family=fam, kind='model')
         # count_triangles
         for par, key in ((False, 'tri_seq'), (True, 'tri_par')):
             got = r[key]
-            if got != {'ok': m['tri']}:
+            if m is not None and got != {'ok': m['tri']}:
                 ctx.violation('count_triangles', 'implementation differs from the proved-exact model', case=case,
                               expected=m['tri'], observed=got, parallelize=par, threads=1, family=fam, kind='correspondence',
                               directed=False)
@@ -270,8 +275,8 @@ def run(ctx, scratch):
                               directed=False)
         # get_core_decomposition
         got = r['core']
-        exp = None if m['core'] is None else [int(x) for x in m['core']]
-        if got != {'ok': exp}:
+        exp = None if (m is None or m['core'] is None) else [int(x) for x in m['core']]
+        if m is not None and got != {'ok': exp}:
             ctx.violation('get_core_decomposition', 'implementation differs from the model of compute_core', case=case,
                           expected=exp, observed=got, family=fam, kind='correspondence')
         if got != {'ok': c['core']} or ('ok' in got and not core_is_valid(n, adj, got['ok'])):
@@ -279,7 +284,7 @@ def run(ctx, scratch):
                           case=case, expected=c['core'], observed=got, family=fam, kind='oracle')
         # get_clustering_coefficient
         q = coef_exact(n, adj, c['tri'])
-        if q != m['coef']:
+        if m is not None and q != m['coef']:
             ctx.violation('model', 'clustering coefficient of the model differs from the exact definition', case=case,
                           expected=q, observed=m['coef'], family=fam, kind='model')
         if q is None:
@@ -294,7 +299,7 @@ def run(ctx, scratch):
         if c.get('argsort_bad'):
             ctx.violation('count_cliques', 'np.argsort(core values) is not a permutation of the nodes', case=case,
                           observed=r.get('argsort'), family=fam, kind='oracle-contract')
-        mcl = dict(zip(c['mks'], m['cliques']))
+        mcl = dict(zip(c['mks'], m['cliques'])) if m is not None else {}
         for k in c['ks']:
             clique_runs += 1
             got = r['cliques'][str(k)]
@@ -314,13 +319,13 @@ def run(ctx, scratch):
         if idx % 150 == 0:
             ctx.sample(dict(family=fam, case=case, ks=c['ks'], impl=dict(tri=r['tri_seq'], core=r['core'], coef=r['coef'],
                                                                         cliques=r['cliques']),
-                            model=dict(tri=m['tri'], core=m['core'], coef=m['coef'], cliques=m['cliques'])))
+                            model=dict(tri=m['tri'], core=m['core'], coef=m['coef'], cliques=m['cliques']) if m is not None else None))
     for c in tri_dir:
         n, E, fam = c['n'], c['E'], c['fam']
         case = dict(n=n, edges=E, directed=True)
         ctx.count(fam, ('d', n, tuple(E)), len(E) > 0)
         exp = cliques_bruteforce(n, adj_sets(n, E), 3)
-        if c['model'][0] != exp or c['model'][1] != exp:
+        if c['model'] is not None and (c['model'][0] != exp or c['model'][1] != exp):
             ctx.violation('model', 'model count on directed input differs from brute force on the symmetrised graph',
                           case=case, expected=exp, observed=list(c['model']), family=fam, kind='model')
         for par, got in zip((False, True), c['impl']):
@@ -357,7 +362,8 @@ def run(ctx, scratch):
                 got = impl.call('c11', 'triangles_repeat', dict(m=mspec(c['n'], c['E']), repeat=repeat), timeout=120)
                 ctx.traces += repeat
                 par_runs += repeat
-                exp = c['model'][0]
+                # (model dead: the brute-force count on the symmetrised graph, which the model is checked against above)
+                exp = c['model'][0] if c['model'] is not None else cliques_bruteforce(c['n'], adj_sets(c['n'], c['E']), 3)
                 if got != {'ok': [exp] * repeat}:
                     ctx.violation('count_triangles', 'parallel count on directed input differs from the model',
                                   case=dict(n=c['n'], edges=c['E'], directed=True), expected=exp, observed=got,
